@@ -104,7 +104,7 @@ inductive Rule
   | ifFwd (k : Kind) (p q q' : Paths)
   /-- `f i` and `g i` have the same number of values -/
   | card (k : Kind) (f g : Field)
-  deriving Repr
+  deriving DecidableEq, Repr
 
 def Rule.kind : Rule → Kind
   | .typed k .. | .one k .. | .irrefl k .. | .sameDir k .. | .invIf k .. | .link k ..
@@ -170,8 +170,9 @@ def Rule.failures (n : Network) (r : Rule) : List Nat :=
 Each rule is named in the comment to its right by the Python attributes it speaks about.  Strict
 reciprocity of `successor`/`predecessor` between *different* lanes or roads is not a rule: both
 attributes are single-valued while lanes fan in and out at junctions, so the code (by design) keeps
-one of several; what is required instead is that a successor is *explained* by a maneuver, and
-that links inside one road (section chains) are strictly reciprocal. -/
+one of several; what is required instead is that lane-level links agree with the lane-section
+links, that links inside one road (section chains) are strictly reciprocal, and that maneuvers
+tie start, connecting and end lanes to their intersection in both directions. -/
 open Kind Field in
 def rules : List Rule := [
   -- link values are elements of this network, of the right class
@@ -263,7 +264,8 @@ def rules : List Rule := [
   .link roadSection succ (some roadSection) [[Field.road]] [[Field.road]] .eq,
   .sub laneSection [[succ, Field.lane]] [[Field.lane], [Field.lane, succ]],
   .sub laneSection [[pred, Field.lane]] [[Field.lane], [Field.lane, pred]],
-  .sub lane [[succ]] [[maneuvers, via]],                    -- a successor lane is reached by a maneuver
+  .sub lane [[succ]] [[sections, succ, Field.lane]],        -- lane links agree with lane-section links
+  .sub lane [[pred]] [[sections, pred, Field.lane]],
   .link road succ (some intersection) [[roads]] [[]] .into, -- r.successor is I → r ∈ I.roads
   .link road pred (some intersection) [[roads]] [[]] .into,
   .link intersection roads none [[succ], [pred]] [[]] .into, -- r ∈ I.roads → I is r's successor or predecessor
